@@ -1,4 +1,10 @@
 import CtrlVerif.Props.C15
+import CtrlVerif.Props.C15GenSim
+import CtrlVerif.Props.C15GenReach
+import CtrlVerif.Props.C15GenObs
+import CtrlVerif.Props.C15GenForm
+import CtrlVerif.Props.C15GenKeys
+import CtrlVerif.Props.C15GenReduce
 
 #print axioms CtrlVerif.C15.timescale_resp
 #print axioms CtrlVerif.C15.similarity_relations
@@ -43,3 +49,38 @@ import CtrlVerif.Props.C15
 #print axioms CtrlVerif.C15.closeQI_default_self
 #print axioms CtrlVerif.C15.closeQI_real_default
 #print axioms CtrlVerif.C15.minreal_sem_graded
+#print axioms CtrlVerif.C15Gen.generated_similarity_transform_eq
+#print axioms CtrlVerif.C15Gen.generated_similarity_transform_nonsquare
+#print axioms CtrlVerif.C15Gen.generated_similarity_transform_ok_iff
+#print axioms CtrlVerif.C15Gen.generated_similarity_resp
+#print axioms CtrlVerif.C15Gen.generated_reachable_form_eq
+#print axioms CtrlVerif.C15Gen.reachableForm_closed
+#print axioms CtrlVerif.C15Gen.charpolyList_contract
+#print axioms CtrlVerif.C15Gen.generated_reachable_form_ok_iff
+#print axioms CtrlVerif.C15Gen.generated_reachable_form_correct
+#print axioms CtrlVerif.C15Gen.generated_reachable_form_resp
+#print axioms CtrlVerif.C15Gen.generated_reachable_form_raises
+#print axioms CtrlVerif.C15Gen.generated_observable_form_eq
+#print axioms CtrlVerif.C15Gen.observableForm_closed
+#print axioms CtrlVerif.C15Gen.charpolyList_contract_dual
+#print axioms CtrlVerif.C15Gen.generated_observable_form_ok_iff
+#print axioms CtrlVerif.C15Gen.generated_observable_form_correct
+#print axioms CtrlVerif.C15Gen.generated_observable_form_resp
+#print axioms CtrlVerif.C15Gen.generated_observable_form_raises
+#print axioms CtrlVerif.C15Gen.generated_canonical_form_eq
+#print axioms CtrlVerif.C15Gen.generated_canonical_form_modal
+#print axioms CtrlVerif.C15Gen.generated_canonical_unknown_form_raises
+#print axioms CtrlVerif.C15Gen.generated_expandKey_atom
+#print axioms CtrlVerif.C15Gen.mapM_expandKey_atoms
+#print axioms CtrlVerif.C15Gen.generated_expandKey_eq
+#print axioms CtrlVerif.C15Gen.generated_resolve_eq
+#print axioms CtrlVerif.C15Gen.generated_processElimOrKeep_eq
+#print axioms CtrlVerif.C15Gen.generated_processElimOrKeep_ok_iff
+#print axioms CtrlVerif.C15Gen.generated_keep_elim_partition
+#print axioms CtrlVerif.C15Gen.generated_model_reduction_eq
+#print axioms CtrlVerif.C15Gen.generated_model_reduction_ok_iff
+#print axioms CtrlVerif.C15Gen.modelReduction_ok_cases
+#print axioms CtrlVerif.C15Gen.modelReduction_ok_of
+#print axioms CtrlVerif.C15Gen.generated_truncate_keeps
+#print axioms CtrlVerif.C15Gen.generated_matchdc_dcgain
+#print axioms CtrlVerif.C15Gen.generated_model_reduction_refusals
